@@ -188,6 +188,23 @@ def main():
     obligations = len(theorems)
     discharged = 0
     broken = []
+    # thorough tier: the compiled modules that hold the property's theorems are replayed by leanchecker, the toolchain's
+    # independent re-checker (cached by the hash of all Lean sources)
+    rechecked = {}
+    if args.tier == 'thorough' and prep.build_ok and not args.replay:
+        h = hashlib.sha256()
+        for f in lean_sources():
+            h.update(f.encode()); h.update(open(f, 'rb').read())
+        cache_file = os.path.join(LEAN, '.lake', 'leanchecker-%s.json' % h.hexdigest()[:24])
+        cache = json.load(open(cache_file)) if os.path.exists(cache_file) else {}
+        for m in sorted(set(props.THEOREM_MODULE[t] for t in theorems)):
+            if m not in cache:
+                t0 = time.time()
+                rc, out = sh(['lake', 'env', 'leanchecker', m], cwd=LEAN, timeout=1800)
+                cache[m] = dict(ok=(rc == 0), seconds=round(time.time() - t0, 1), output=out[-300:])
+                json.dump(cache, open(cache_file, 'w'))
+            rechecked[m] = cache[m]
+            if not cache[m]['ok']: broken.append(('leanchecker:' + m, 'the independent re-checker rejects the module: ' + cache[m]['output']))
     for t in theorems:
         ax = prep.axioms.get(t)
         if ax is None: broken.append((t, 'does not check (module %s)' % props.THEOREM_MODULE[t]))
@@ -257,7 +274,7 @@ def main():
                outcome_classes=result.get('classes', {}),
                known_findings_hit=sorted(result.get('finding_hits', {}).keys()),
                correspondence_mismatches=len(result.get('corr_broken', [])),
-               translator=prep.extract, times=prep.times, exhaustive=bool(result.get('exhaustive', False)))
+               translator=prep.extract, times=prep.times, leanchecker=rechecked, exhaustive=bool(result.get('exhaustive', False)))
     cov.update(result.get('extra', {}))
     if level == 'translation_validation':
         cov['programs'] = max(1, int(result.get('evaluations', 0)))
